@@ -639,7 +639,12 @@ class CSSFunction(Value):
                                   toSeq=lambda t, tokens: (t[0],
                                                            normalize(t[1]))),
                              Choice(Sequence(itemProd,
-                                             Sequence(PreDef.comma(optional=True),
+                                             # arguments are separated by
+                                             # "," or "/" or whitespace
+                                             Sequence(Choice(PreDef.comma(optional=True),
+                                                             PreDef.char('slash', '/',
+                                                                         optional=True),
+                                                             optional=True),
                                                       itemProd,
                                                       minmax=lambda: (0, None)),
                                              PreDef.funcEnd(stop=True)),
